@@ -19,6 +19,20 @@ import (
 
 func init() {
 	factProviders = append(factProviders, func(f *factSet, repo string) error {
+		// statement order in the two functions that build a Session from a hand-off stream: the values
+		// received from the old process must be applied AFTER the Profile's defaults were seeded (or the
+		// defaults overwrite them). 1 = every assignment to s.sleep / s.jitter / s.kill / s.work of the
+		// function precedes its readDeviceInfo(kind, r) call.
+		for _, q := range []struct{ fn, kind, fact string }{
+			{"LoadContext", "infoMigrate", "c12_loadSeedsBeforeHandoff"},
+			{"connectContextInner", "infoSync", "c12_spawnSeedsBeforeSync"},
+		} {
+			v, err := c12SeedOrder(repo+"/c2/c2.go", q.fn, q.kind)
+			if err != nil {
+				return err
+			}
+			f.Nat(q.fact, v)
+		}
 		f.Nat("c12_infoHello", uint64(c2.VerifC12InfoHello))
 		f.Nat("c12_infoMigrate", uint64(c2.VerifC12InfoMigrate))
 		f.Nat("c12_infoRefresh", uint64(c2.VerifC12InfoRefresh))
@@ -434,4 +448,52 @@ func c12Traces(f *factSet, repo string) error {
 		return fmt.Errorf("c12 facts: MvTime/MvProfile arms not found (%d)", found)
 	}
 	return nil
+}
+
+// c12SeedOrder: in function fn of file, do all assignments to s.sleep / s.jitter / s.kill / s.work come
+// before the call s.readDeviceInfo(kind, …)? (1 yes, 0 no or not found)
+func c12SeedOrder(file, fn, kind string) (uint64, error) {
+	fs := token.NewFileSet()
+	af, err := parser.ParseFile(fs, file, nil, 0)
+	if err != nil {
+		return 0, err
+	}
+	for _, d := range af.Decls {
+		fd, ok := d.(*ast.FuncDecl)
+		if !ok || fd.Name.Name != fn || fd.Body == nil {
+			continue
+		}
+		lastSeed, call := token.NoPos, token.NoPos
+		seeds := 0
+		ast.Inspect(fd.Body, func(n ast.Node) bool {
+			switch x := n.(type) {
+			case *ast.AssignStmt:
+				for _, l := range x.Lhs {
+					if se, ok := l.(*ast.SelectorExpr); ok {
+						if id, ok := se.X.(*ast.Ident); ok && id.Name == "s" {
+							switch se.Sel.Name {
+							case "sleep", "jitter", "kill", "work":
+								seeds++
+								if x.Pos() > lastSeed {
+									lastSeed = x.Pos()
+								}
+							}
+						}
+					}
+				}
+			case *ast.CallExpr:
+				if se, ok := x.Fun.(*ast.SelectorExpr); ok && se.Sel.Name == "readDeviceInfo" && len(x.Args) >= 1 {
+					if id, ok := x.Args[0].(*ast.Ident); ok && id.Name == kind && call == token.NoPos {
+						call = x.Pos()
+					}
+				}
+			}
+			return true
+		})
+		if seeds >= 4 && call != token.NoPos && lastSeed < call {
+			return 1, nil
+		}
+		return 0, nil
+	}
+	return 0, nil
 }
